@@ -2,7 +2,8 @@
 (***************************************************************************)
 (* Trace validation for C06.  Lines recorded by harness/drivers/c06 from   *)
 (* the real route.Engine:                                                  *)
-(*   Case{id, fam, raw, esc, routes, orders, lookups}                      *)
+(*   Case{id, fam, raw, unesc, esc, routes, orders, modes, lookups}        *)
+(*        raw / unesc = engine options UseRawPath / UnescapePathValues     *)
 (*   then for every order of the case, on a fresh engine:                  *)
 (*     Order{o, perm, mode}             mode = engine set-up: "plain" |    *)
 (*                                      "use3" (three separate Use(noop))  *)
@@ -57,7 +58,6 @@ tvars == <<vars, l, bad, ci, ord, regn, stopped, lk>>
 (* (with validity and scope) and, when the whole route set is acceptable, the expected result of each lookup.  By the *)
 (* property the result is a function of the SET, so the same entry judges every registration order.                  *)
 CaseLines == {c \in 1 .. Len(Trace) : Trace[c].ev = "Case"}
-InScopeFor(raw, s) == IF raw THEN InScopeRawPath(s) ELSE InScopePath(s)
 CaseTab ==
   [c \in CaseLines |->
      LET C  == Trace[c]
@@ -68,8 +68,9 @@ CaseTab ==
      IN [rt |-> rt,
          ex |-> IF (\A i \in 1 .. Len(rt) : rt[i].valid) /\ Accepts(R)
                 THEN [i \in 1 .. Len(C.lookups) |->
-                        LET in == InScopeFor(C.raw, C.lookups[i].path) IN
-                        [in |-> in, res |-> IF in THEN Match(R, C.lookups[i].m, C.lookups[i].path) ELSE Miss]]
+                        LET in == InScopeSent(C.raw, C.unesc, C.lookups[i].path)
+                            rp == IF in THEN Routed(C.raw, C.lookups[i].path) ELSE ""
+                        IN [in |-> in, rp |-> rp, res |-> IF in THEN Match(R, C.lookups[i].m, rp) ELSE Miss]]
                 ELSE << >>]]
 
 IdleVars == /\ regd' = << >> /\ tried' = {} /\ outcome' = "none" /\ last' = NoLookup
@@ -90,6 +91,7 @@ OrderDone == ord = 0 \/ stopped \/ (regn = K /\ lk = N + 1)
 TraceCase ==
   /\ l <= Len(Trace) /\ Line.ev = "Case" /\ Idle
   /\ Line.id > 0 /\ Len(Line.orders) >= 1 /\ Len(Line.modes) = Len(Line.orders)
+  /\ Line.raw \in BOOLEAN /\ Line.unesc \in BOOLEAN
   /\ ci' = l
   /\ regd' = << >> /\ tried' = {} /\ outcome' = "none" /\ last' = NoLookup
   /\ ord' = 0 /\ regn' = 0 /\ stopped' = FALSE /\ lk' = 1
@@ -138,12 +140,13 @@ TraceLookup ==
   /\ l <= Len(Trace) /\ Line.ev = "Lookup" /\ ~Idle /\ ord >= 1 /\ ~stopped /\ regn = K /\ lk <= N
   /\ Line.i = lk /\ Line.m = Cs.lookups[lk].m /\ Line.path = Cs.lookups[lk].path
   /\ LET ex  == CaseTab[ci].ex
-         in  == IF Len(ex) = N THEN ex[lk].in ELSE InScopeFor(Cs.raw, Line.path)
+         in  == IF Len(ex) = N THEN ex[lk].in ELSE InScopeSent(Cs.raw, Cs.unesc, Line.path)
+         rp  == IF ~in THEN "" ELSE IF Len(ex) = N THEN ex[lk].rp ELSE Routed(Cs.raw, Line.path)   \* path the tree walks
          res == IF ~in THEN Miss
-                ELSE IF Len(ex) = N THEN ex[lk].res ELSE Match(Regd, Line.m, Line.path)
+                ELSE IF Len(ex) = N THEN ex[lk].res ELSE Match(Regd, Line.m, rp)
      IN
        /\ in => IF res.found
-                THEN LET pl == ParamList(res.r, res.vals, Cs.raw) IN
+                THEN LET pl == ParamList(res.r, res.vals, Cs.raw /\ Cs.unesc) IN
                      /\ Line.ran = <<res.r.id>>
                      /\ Line.mw = MwCount(Cs.modes[ord])        \* the route's chain = the group's middleware + its handler
                      /\ Line.fullPath = res.r.pat
@@ -151,7 +154,7 @@ TraceLookup ==
                      /\ Line.byName = ByNameList(res.r, pl)
                 ELSE Line.ran = << >>
        /\ last' = IF SpecInv /\ ord = 1 /\ in
-                  THEN [m |-> Line.m, path |-> Line.path, res |-> res, ran |-> Line.ran] ELSE NoLookup
+                  THEN [m |-> Line.m, path |-> rp, res |-> res, ran |-> Line.ran] ELSE NoLookup
   /\ lk' = lk + 1 /\ outcome' = "none"
   /\ l' = l + 1 /\ UNCHANGED <<bad, ci, ord, regn, stopped, regd, tried>>
 
